@@ -236,6 +236,11 @@ func init() {
 				// accepted only in a function that is reached solely on the script/style branch: every call site is
 				// on that branch, or sits in a function that itself is reached solely on it (helpers of helpers)
 				okRaw := p.formatterRawOnly(fn, 0)
+				// … or the write itself sits on a branch taken only for a raw-text element (the walk inside <pre>
+				// meets a nested <script> / <style> / <xmp>)
+				if !okRaw {
+					okRaw, _ = p.rawTextBranch(h.At.Block())
+				}
 				// … or a strings.Builder local to a raw-text function (content collected, then written)
 				c.check(okRaw, fmt.Sprintf("%s: raw text write#%d", shortName(fn), i+1), p.instrPos(h.At), "only reached for script/style elements", "text is written without the text escaper outside the script/style path: `&lt;b&gt;` in a template becomes a live <b> after formatting — "+shortWhy(h.Why))
 			}
